@@ -10,7 +10,10 @@
 (*                                                                         *)
 (* Verdict(rec) judges one OBSERVATION RECORD of one executed command:     *)
 (*   rec.kind    special | builtin | function | group | subshell | pipe |  *)
-(*               notfound | external | empty | exec                        *)
+(*               notfound | external | empty | exec |                      *)
+(*               dot (`. file`) | cmddot (`command . file`): the command   *)
+(*               body is read from a file, for which the shell needs a     *)
+(*               descriptor of its own while the body runs                 *)
 (*   rec.nc      noclobber option on                                       *)
 (*   rec.lim     RLIMIT_NOFILE in force (AbsNoLimit = not lowered)         *)
 (*   rec.bst     exit status the command body itself ends with             *)
@@ -37,8 +40,13 @@ EXTENDS Integers, Sequences, FiniteSets, TLC
 AbsNoLimit == 9999
 AbsGap     == "00"
 
-RunKinds  == {"special", "builtin", "function", "group", "subshell", "pipe"}
-ExitKinds == {"special", "exec"}        \* special built-ins: a redirection error ends a non-interactive shell
+RunKinds  == {"special", "builtin", "function", "group", "subshell", "pipe", "dot", "cmddot"}
+\* special built-ins: an error (of a redirection, or of the built-in itself: XCU
+\* 2.8.1, and `dot`: "if no readable file is found, a non-interactive shell shall
+\* abort") ends a non-interactive shell; not so through `command`
+ExitKinds == {"special", "exec", "dot"}
+\* commands that need a descriptor of the shell's own to run at all
+NeedsFd   == {"dot", "cmddot"}
 
 Entries(tab) == {tab[i] : i \in DOMAIN tab}
 TabFn(tab)   == [f \in {e.fd : e \in Entries(tab)} |-> CHOOSE e \in Entries(tab) : e.fd = f]
@@ -237,19 +245,29 @@ Clauses(rec, S) ==
      \cup (IF ~rec.fchk \/ filesOK THEN {} ELSE {"files"})
 
 (* Allowed outcomes: the operators' own meaning; under a lowered limit     *)
-(* also a failure of descriptor allocation in any redirection.  The        *)
+(* also a failure of descriptor allocation in any redirection, or - for a  *)
+(* command that needs a descriptor of the shell's own - in the command     *)
+(* itself after its redirections were applied (stop = Len(list) + 1: the   *)
+(* command does not run, fails like any failing command of its kind, and   *)
+(* the table must still be what it was before).  The                       *)
 (* verdict is that of the outcome the observation is closest to (fewest    *)
 (* violated clauses), with the index of the redirection failing in it.     *)
 Outcomes(rec) ==
   {<<0, FALSE>>} \cup
-  (IF rec.lim # AbsNoLimit THEN (1 .. Len(rec.list)) \X BOOLEAN ELSE {})
+  (IF rec.lim # AbsNoLimit THEN (1 .. Len(rec.list)) \X BOOLEAN ELSE {}) \cup
+  (IF rec.lim # AbsNoLimit /\ rec.kind \in NeedsFd THEN {<<Len(rec.list) + 1, FALSE>>} ELSE {})
+
+\* the state after the list, for outcome o
+AbsOutcome(rec, o) ==
+  LET S == AbsList(rec, o[1], o[2])
+  IN IF o[1] = Len(rec.list) + 1 /\ S.fail = 0 THEN [S EXCEPT !.fail = o[1]] ELSE S
 
 VerdictFull(rec) ==
   LET sem == AbsList(rec, 0, FALSE)
       cs  == Clauses(rec, sem)
   IN IF cs = {} \/ rec.lim = AbsNoLimit THEN [clauses |-> cs, fail |-> sem.fail]
-     ELSE LET cand == {[clauses |-> Clauses(rec, AbsList(rec, o[1], o[2])),
-                        fail |-> AbsList(rec, o[1], o[2]).fail] : o \in Outcomes(rec)}
+     ELSE LET cand == {[clauses |-> Clauses(rec, AbsOutcome(rec, o)),
+                        fail |-> AbsOutcome(rec, o).fail] : o \in Outcomes(rec)}
               semV == [clauses |-> cs, fail |-> sem.fail]
           IN IF \A d \in cand : Cardinality(cs) <= Cardinality(d.clauses) THEN semV
              ELSE CHOOSE c \in cand : \A d \in cand : Cardinality(c.clauses) <= Cardinality(d.clauses)
